@@ -317,4 +317,75 @@ theorem strided_partition (world : Nat) (hw : 0 < world) (n : Nat) :
 example : (List.range 3).map (fun r => distStream [[2, 0, 1, 3], [1, 3, 0, 2]] r 3) =
     [[2, 3, 0], [0, 1, 2], [1, 3]] := by decide
 
+/-- the infinite stream is epoch after epoch: position `e·size + j` holds element `j` of epoch `e` -/
+theorem infinite_get (size : Nat) (perms : List (List Nat)) (hp : ∀ p ∈ perms, p.length = size) (e j : Nat)
+    (hj : j < size) :
+    (infinitePrefix perms)[e * size + j]? = (perms[e]?).bind (·[j]?) := by
+  unfold infinitePrefix
+  induction perms generalizing e with
+  | nil => simp
+  | cons p ps ih =>
+    have hlen : p.length = size := hp p (by simp)
+    cases e with
+    | zero =>
+      simp only [Nat.zero_mul, Nat.zero_add, List.flatten_cons, List.getElem?_cons_zero, Option.bind_some]
+      rw [List.getElem?_append_left (by omega)]
+    | succ e =>
+      simp only [List.flatten_cons, List.getElem?_cons_succ]
+      rw [List.getElem?_append_right (by rw [hlen, Nat.add_mul]; omega)]
+      rw [show (e + 1) * size + j - p.length = e * size + j by rw [hlen, Nat.add_mul]; omega]
+      exact ih (fun q hq => hp q (by simp [hq])) e
+
+/-! ## `len()`: `math.ceil(n / bs)` in binary64 versus the integer ceiling
+
+The code computes the true quotient in binary64 and takes `math.ceil`.  Write `F = m / 2^s` for the computed
+quotient and `q` for the integer ceiling of `n / bs`.  IEEE-754 division is correctly rounded, hence monotone
+and exact on representable values; this gives `F ≤ q` (as `n/bs ≤ q` and `q` is representable) and `y₀ ≤ F` for
+every representable `y₀ ≤ n/bs`.  The three theorems below provide the witness `y₀ = (q-1) + 2^{-t}` with
+`bs ≤ 2^t < 2·bs`: it lies below `n/bs` whenever `bs` does not divide `n`, it is representable (its
+numerator stays below `2^53`) for all `n < 2^52`, and the sandwich forces `ceil F = q`.  So for `n < 2^52` the
+float expression equals the integer ceiling — the only thing assumed is IEEE-754's correct rounding. -/
+
+/-- the dyadic witness does not exceed the true quotient: `((q-1)·2^t + 1) / 2^t ≤ n / bs` -/
+theorem float_ceil_witness_le (n bs q t : Nat) (hq : (q - 1) * bs < n) (ht : bs ≤ 2 ^ t) :
+    ((q - 1) * 2 ^ t + 1) * bs ≤ n * 2 ^ t := by
+  have h1 : ((q - 1) * bs + 1) * 2 ^ t ≤ n * 2 ^ t := Nat.mul_le_mul_right _ hq
+  have h2 : ((q - 1) * 2 ^ t + 1) * bs = (q - 1) * bs * 2 ^ t + bs := by
+    rw [Nat.add_mul, Nat.one_mul, Nat.mul_assoc, Nat.mul_comm (2 ^ t) bs, ← Nat.mul_assoc]
+  have h3 : ((q - 1) * bs + 1) * 2 ^ t = (q - 1) * bs * 2 ^ t + 2 ^ t := by
+    rw [Nat.add_mul, Nat.one_mul]
+  omega
+
+/-- … and is representable in binary64 (53-bit significand) for every `n < 2^52` -/
+theorem float_ceil_witness_representable (n bs q t : Nat) (hn : n < 2 ^ 52) (hq : (q - 1) * bs ≤ n)
+    (ht : 2 ^ t < 2 * bs) : (q - 1) * 2 ^ t + 1 ≤ 2 ^ 53 := by
+  have h1 : (q - 1) * 2 ^ t ≤ (q - 1) * (2 * bs) := Nat.mul_le_mul_left _ (Nat.le_of_lt ht)
+  have h2 : (q - 1) * (2 * bs) = 2 * ((q - 1) * bs) := by
+    rw [Nat.mul_comm 2 bs, ← Nat.mul_assoc, Nat.mul_comm]
+  have h3 : (2 : Nat) ^ 53 = 2 * 2 ^ 52 := by decide
+  omega
+
+/-- a computed quotient `F = m / 2^s` squeezed between the witness and `q` has ceiling `q` -/
+theorem float_ceil_of_sandwich (m s q t : Nat) (hq : 0 < q)
+    (hlow : ((q - 1) * 2 ^ t + 1) * 2 ^ s ≤ m * 2 ^ t) (hup : m ≤ q * 2 ^ s) :
+    ceilDiv m (2 ^ s) = q := by
+  have hP : 0 < 2 ^ s := Nat.pow_pos (by decide)
+  have hT : 0 < 2 ^ t := Nat.pow_pos (by decide)
+  have hlt : (q - 1) * 2 ^ s < m := by
+    apply Nat.lt_of_mul_lt_mul_right (a := 2 ^ t)
+    have e : (q - 1) * 2 ^ s * 2 ^ t = (q - 1) * 2 ^ t * 2 ^ s := by
+      rw [Nat.mul_assoc, Nat.mul_comm (2 ^ s), ← Nat.mul_assoc]
+    have e2 : ((q - 1) * 2 ^ t + 1) * 2 ^ s = (q - 1) * 2 ^ t * 2 ^ s + 2 ^ s := by
+      rw [Nat.add_mul, Nat.one_mul]
+    omega
+  unfold ceilDiv
+  have hq1 : (q - 1) * 2 ^ s + 2 ^ s = q * 2 ^ s := by
+    have : q = (q - 1) + 1 := by omega
+    conv => rhs; rw [this, Nat.add_mul, Nat.one_mul]
+  apply Nat.div_eq_of_lt_le
+  · omega
+  · rw [Nat.add_mul, Nat.one_mul]; omega
+
+example : ceilDiv 7 2 = 4 ∧ ((4 - 1) * 2 ^ 1 + 1) * 2 ^ 1 ≤ 7 * 2 ^ 1 ∧ 7 ≤ 4 * 2 ^ 1 := by decide
+
 end DirectVerif.C13
